@@ -502,7 +502,7 @@ class C07(Property):
         return case
 
     def cases(self, rng: random.Random, tier: str, deep: bool) -> Iterator[Dict[str, Any]]:
-        n = 1800 if deep else 400
+        n = 1800 if deep else 320
         cap = 24 if deep else 12
         for i in range(n):
             r = rng.random()
